@@ -328,12 +328,25 @@ fn observe_c07(w: &mut World, cx: &mut Ctx) -> R {
 // ------------------------------------------------------------------------------------- C08
 
 fn observe_c08(w: &World, cx: &mut Ctx) -> R {
-    // (d) plain parsing accepts both notations for the undamaged record
-    let mut texts = vec![w.model.to_fen(true)];
+    // (d) plain parsing (FromStr) accepts both notations: whatever the notation-specific entry point
+    // accepts for the undamaged record, FromStr accepts too, as the same position
+    let mut texts = vec![(w.model.to_fen(true), Entry::Sfen)];
     if w.model.plain_expressible() {
-        texts.push(w.model.to_fen(false));
+        texts.push((w.model.to_fen(false), Entry::Fen));
     }
-    for t in texts {
+    for (t, specific) in texts {
+        let spec = match parse_via(&t, specific) {
+            Ok(r) => r,
+            Err(()) => {
+                cx.fail("C08/panic/canonical-record".into(), t.clone())?;
+                continue;
+            }
+        };
+        if let Ok(b) = &spec {
+            if adopt(b) != w.model {
+                cx.fail("C08/denotation/canonical-record".into(), format!("{} parsed to {:#}", t, b))?;
+            }
+        }
         match parse_via(&t, Entry::FromStr) {
             Ok(Ok(b)) => {
                 if adopt(&b) != w.model {
@@ -341,9 +354,8 @@ fn observe_c08(w: &World, cx: &mut Ctx) -> R {
                 }
             }
             Ok(Err(e)) => {
-                // only records of positions reached by legal play are known to be valid
-                if w.pure_play {
-                    cx.fail("C08/fromstr-rejects-notation".into(), format!("{} -> {}", t, fen_err_name(&e)))?;
+                if spec.is_ok() {
+                    cx.fail("C08/fromstr-rejects-notation".into(), format!("{} is accepted by {} but FromStr says {}", t, specific.name(), fen_err_name(&e)))?;
                 }
             }
             Err(()) => cx.fail("C08/panic/canonical-record".into(), t.clone())?,
@@ -364,11 +376,6 @@ fn observe_c09(w: &World, cx: &mut Ctx) -> R {
         }
         Ok(Err(e)) => cx.fail("C09/from-board-roundtrip/rejected".into(), format!("{:#} -> {}", w.real, builder_err_name(&e)))?,
         Err(()) => cx.fail("C09/panic/from-board".into(), format!("{:#}", w.real))?,
-    }
-    // from_board must describe the position (independently of build)
-    let bb = BoardBuilder::from_board(&w.real);
-    if bb != builder_of(&w.model) {
-        cx.fail("C09/from-board-roundtrip/builder-state".into(), format!("from_board of {:#} is not the builder state of that position", w.real))?;
     }
     Ok(())
 }
@@ -585,10 +592,16 @@ pub fn mask_oracle(w: &World, mask: u64, k: Option<u8>, cx: &mut Ctx) -> R {
 fn abort_at(w: &World, mask: u64, k: usize, batches: usize, cx: &mut Ctx) -> R {
     let mut calls = 0usize;
     let r = guard(|| {
-        w.real.generate_moves_for(BitBoard(mask), |_| {
+        let listener = |_: PieceMoves| {
             calls += 1;
             calls == k + 1
-        })
+        };
+        // with a full mask both entry points are exercised (the unmasked one on even abort indices)
+        if mask == !0u64 && k % 2 == 0 {
+            w.real.generate_moves(listener)
+        } else {
+            w.real.generate_moves_for(BitBoard(mask), listener)
+        }
     });
     let at = w.model.to_fen(true);
     match r {
@@ -695,11 +708,13 @@ pub fn play_oracles(w: &World, mv: MMove, expect: &Model, cx: &mut Ctx) -> R {
     if !matches!(rb, Ok(Ok(()))) {
         cx.fail("C02/legal-move-not-playable/try".into(), format!("try_play({}) refused a legal move at {}", mv.text(), at))?;
     }
-    if ra.is_ok() && a != c {
-        cx.fail("C02/variants-disagree/play".into(), format!("{} at {}", mv.text(), at))?;
+    // every entry point that plays the move must yield the prescribed position (accessor level: the
+    // statement lists placement, side, rights, EP file and clocks; hash, pins and text are other properties')
+    if ra.is_ok() && adopt(&a) != *expect {
+        cx.fail("C02/successor/via-play".into(), format!("{} at {}: play gave {} expected {}", mv.text(), at, adopt(&a).to_fen(true), expect.to_fen(true)))?;
     }
-    if matches!(rb, Ok(Ok(()))) && b != c {
-        cx.fail("C02/variants-disagree/try".into(), format!("{} at {}", mv.text(), at))?;
+    if matches!(rb, Ok(Ok(()))) && adopt(&b) != *expect {
+        cx.fail("C02/successor/via-try_play".into(), format!("{} at {}: try_play gave {} expected {}", mv.text(), at, adopt(&b).to_fen(true), expect.to_fen(true)))?;
     }
     let got = adopt(&c);
     let kind = move_kind(&w.model, mv);
@@ -725,10 +740,7 @@ pub fn play_oracles(w: &World, mv: MMove, expect: &Model, cx: &mut Ctx) -> R {
     if got.full != expect.full {
         cx.fail("C02/successor/fullmove".into(), detail.clone())?;
     }
-    let text = format!("{:#}", c);
-    if text != expect.to_fen(true) && got == *expect {
-        cx.fail("C02/successor/text".into(), detail)?;
-    }
+    let _ = detail;
     Ok(())
 }
 
@@ -940,16 +952,15 @@ pub fn restart(w: &mut World, route: Route, cx: &mut Ctx) -> R {
     cx.hit(&format!("restart_{}", route.name()));
     if rec != w.real {
         let what = format!("live board != board recovered via {} ({}) at {}", route.name(), text, at);
-        let hash_only = rec.hash() != w.real.hash() && rec.checkers() == w.real.checkers() && rec.pinned() == w.real.pinned();
+        // C03 / C10 speak of a fresh board *of the same position*: they only own the difference when the
+        // recovered board denotes the position the live board denotes (else the writer/reader is at fault)
+        let same_denotation = adopt(&rec) == w.model;
         match cx.prop {
-            Prop::C03 => cx.fail(format!("C03/eq-different-routes/{}", route.name()), what)?,
             Prop::C07 if route != Route::Builder => cx.fail(format!("C07/roundtrip-differs/{}", route.name()), what)?,
             Prop::C09 if route == Route::Builder => cx.fail("C09/from-board-roundtrip/differs".into(), what)?,
-            Prop::C10 if hash_only => cx.fail(format!("C10/hash-vs-fresh/{}", route.name()), what)?,
-            Prop::C14 | Prop::C06 | Prop::C01 | Prop::C02 | Prop::C04 | Prop::C08 | Prop::C12 | Prop::C13 | Prop::C15 | Prop::C16 | Prop::C20 | Prop::C10 | Prop::C07 | Prop::C09 => {
-                // not this property's business: continue on the recovered board (a fresh one)
-                cx.hit("restart_live_ne_recovered_foreign");
-            }
+            Prop::C03 if same_denotation => cx.fail(format!("C03/eq-different-routes/{}", route.name()), what)?,
+            Prop::C10 if same_denotation && rec.hash() != w.real.hash() => cx.fail(format!("C10/hash-vs-fresh/{}", route.name()), what)?,
+            _ => cx.hit("restart_live_ne_recovered_foreign"),
         }
     }
     w.real = rec;
